@@ -114,6 +114,9 @@ def _check(rep):
     PR.rule_compiles(ctx, rid="C13.SHAPE-COMPILES", strict=False)
     # a literal must stay a constant whatever its value: a number too large for a float must not surface as the NAME `inf`
     PR.rule_names_bound(ctx, rid="C13.NO-NAME-FROM-LITERAL")
+    # the characters of a literal reach the lexer as written: a rewriting of the text (unescaping, stripping, normalising) can turn
+    # content into a delimiter
+    ER.rule_text_unmodified(ctx, rid="C13.TEXT-UNMODIFIED")
     PR.rule_renderers(ctx, rid="C13.TAINT", kinds=("str",), extra_safe=("json",))
     PR.rule_string_surface(ctx)
     n = PR.rule_placement(ctx)
